@@ -26,7 +26,7 @@ Inductive op :=
 Record tset := TS { outst : Z; canc : bool; guard : Z (* 0 unset 1 setting 2 set *); exn : Z (* slot, 0 = empty *);
                     tick : Z (* ghost: ticket (clock of the write) of the slot content, 0 = empty *);
                     won : Z (* ghost: exception of the last successful CAS *);
-                    cst : Z (* ghost: clock of the first canceled_ := true store, 0 = never *) }.
+                    cst : Z (* ghost: clock of the first canceled_ := true store, 0 = never, -1 = before the run *) }.
 Record tcfg := TC { concurrent : bool; heavy : bool; tlf : Z (* taskSetLoadFactor_ *); kids : list nat (* registered children *) }.
 Record qtask := QT { qid : Z; qset : nat; qbody : list op }.
 Inductive lst := LNone | LPend (T : nat) | LRun (T : nat) | LRaw (T : nat) | LDone (T : nat) | LSkip (T : nat).
@@ -450,7 +450,7 @@ Definition cands (s : state) : list nat :=
 Definition finished (s : state) : bool := forallb (fun th => match stk th with [] => true | _ => false end) (threads s).
 
 (* ---------- initial states ---------- *)
-Definition ts0 (c0 : bool) : tset := TS 0 c0 0 0 0 0 0.
+Definition ts0 (c0 : bool) : tset := TS 0 c0 0 0 0 0 (if c0 then -1 else 0).   (* cancelled before the run: store at a time before the clock starts *)
 Record setup := SU { su_cfg : list tcfg; su_canc : list bool (* sets cancelled before the run *); su_wr : Z; su_nthr : Z; su_plf : Z; su_prlf : Z;
                      su_nrings : Z; su_hints : list Z; su_progs : list (list op * bool * Z) (* script, isPoolRecursive, initial inline depth *) }.
 Definition tc0 : tcfg := TC true false 0 [].
